@@ -17,14 +17,14 @@ import bitd_gen
 PROP = "C13"
 LEAN_MODULES = ["DrxProps.C13"]
 FAMILIES = ["bitd"]
-RULE = ("every sequence is run on freshly constructed decoder objects (= a new process); the result of its last call must equal "
+RULE = ("every sequence is run after re-executing the bitd2bmp module (new decoder objects and module-level names = a new process); the result of its last call must equal "
         "the result of that call alone (D), and results + the buffers left in all six DECODERS entries must equal the Lean "
         "model's DecState (C). Pool: valid 1/8/16/32-bit images (raw and packed), each truncated at every offset, depth 4, "
         "depth 2/24, short and long custom palettes, raw 16-bit, 32-bit length that triggers the raw test, header overflow, "
         "negative top offset. All singles and pairs, sampled triples (thorough: all triples of the reduced pool). "
         "Other registries: mixed sequences of sound/palette/score/cast/bitmap decodes against fresh-interpreter results. "
         "distinct_nontrivial = distinct sequences whose last call returned bytes.")
-TRUSTED = ["harness/c13.py (pool, fresh decoder objects stand for a fresh process; spot-checked against real subprocesses)",
+TRUSTED = ["harness/c13.py (pool; re-executing the registry module stands for a fresh process; spot-checked against real subprocesses)",
            "harness/bitd_gen.py: the ast walk that lists writes to self.<attr> outside __init__ and to module-level names",
            "io.BytesIO is modelled as an append-only byte list; struct.pack range checks as in lean/Drx/Bitd.lean",
            "correspondence is sampled over the stated pool"]
